@@ -867,6 +867,16 @@ func SubstituteParameters(layout Layout,
 
 	replacer := strings.NewReplacer(parameters...)
 
+	// The layout was passed by value, but its steps and inspections still
+	// share their backing arrays with the layout of the caller. Substitute in
+	// copies, so that the caller's layout (and its signature) stays intact.
+	if layout.Steps != nil {
+		layout.Steps = append([]Step{}, layout.Steps...)
+	}
+	if layout.Inspect != nil {
+		layout.Inspect = append([]Inspection{}, layout.Inspect...)
+	}
+
 	for i := range layout.Steps {
 		layout.Steps[i].ExpectedMaterials = substituteParametersInSliceOfSlices(
 			replacer, layout.Steps[i].ExpectedMaterials)
